@@ -309,7 +309,9 @@ def find_impl_blocks(src, type_name, trait=None):
                 want_name, want_gen = trait.split('<', 1)
                 want_gen = '<' + ''.join(want_gen.split())
                 got = [g for (pos, g) in gens if pos < hdr.index('for')]
-                if tyname == type_name and trname == want_name and got and got[-1].replace('io::', '').endswith(want_gen.replace('io::', '')[1:]):
+                g = got[-1][1:-1] if got else None
+                w = want_gen[1:-1]
+                if tyname == type_name and trname == want_name and g is not None and (g == w or g.endswith('::' + w) or w.endswith('::' + g)):
                     yield k, j, src.matches()[j]
                 continue
             if tyname == type_name and trname == trait:
